@@ -101,7 +101,7 @@ def _mask_stairs(self, other, inverse):
             return sc.Stairs(initial_value=np.nan, closed=self.closed)
         else:
             return self.copy()
-    return _maskify(other, inverse=inverse) + self
+    return (_maskify(other, inverse=inverse) + self)._remove_redundant_step_points()
 
 
 def _make_mask_or_where_func(docstring, which):
